@@ -22,9 +22,12 @@ def pyenv(wt):
 
 def suite_pass_set(wt):
     xmlp = wt + ".junit.xml"
-    run(["/venv/bin/python", "-m", "pytest", "-q", "-p", "no:cacheprovider", "-n", os.environ.get("SEED_PYTEST_JOBS", "8"), "--timeout=900",
+    r = run(["/venv/bin/python", "-m", "pytest", "-q", "-p", "no:cacheprovider", "-n", os.environ.get("SEED_PYTEST_JOBS", "8"), "--timeout=900",
          "--continue-on-collection-errors", "--junitxml=" + xmlp], cwd=wt, timeout=3600)
     passed = set()
+    if not os.path.exists(xmlp):
+        print("pytest produced no junit file:", (r.stdout + r.stderr)[-1500:])
+        return passed
     for tc in ET.parse(xmlp).getroot().iter("testcase"):
         if not any(ch.tag in ("failure", "error", "skipped") for ch in tc):
             passed.add(tc.get("classname") + "::" + tc.get("name"))
